@@ -2,7 +2,7 @@
 import io
 from .. import core, gallina as G, codec_common as CC
 
-SRCFACTS = ["ints"]
+SRCFACTS = ["ints", "leaves_enc", "leaves_dec"]
 RULE = ("cases = (schema, conforming datum, random suffix): random schemas over all constructs (records, enums, fixed, arrays, maps, "
         "unions, by-name and recursive references, namespaces, dict-form primitives, unknown logicalType annotations) + a fixed pool; "
         "data boundary-dense (varint-length boundaries, int32/int64 extremes, float specials, empty/long/multibyte strings, all byte "
